@@ -74,8 +74,8 @@ def wrapper_variants(f):
     return ws, counts
 
 
-def predicate_table(f, b):
-    """for a body P(&PdfError) -> bool: variant -> 'true' | 'false' | 'recurse' | 'mixed'"""
+def _switch_table(f, b, scrutinee, classify):
+    """variant -> set of classified results of the paths from the switch on discriminant(*scrutinee) to the return"""
     cfg = CFG(b)
     vs = {v["vi"]: v["name"] for v in err_variants(f)}
     for i, bb in enumerate(b["blocks"]):
@@ -83,7 +83,7 @@ def predicate_table(f, b):
         if t["k"] != "switch":
             continue
         dl = F.op_local(t["discr"])
-        isd = any(s[0] == "assign" and s[1] == [dl] and s[2][0] == "discr" and s[2][1][0] == 1 for s in bb["stmts"])
+        isd = any(s[0] == "assign" and s[1] == [dl] and s[2][0] == "discr" and s[2][1][0] in scrutinee for s in bb["stmts"])
         if not isd:
             continue
         arms = {a[0]: a[1] for a in t["arms"]}
@@ -98,17 +98,77 @@ def predicate_table(f, b):
                     ps = PathSym(b, pre + [i] + p)
                     if not feasible(ps):
                         continue
-                    e = ps.expr_of_local(0, len(ps.events))
-                    if e[0] == "const" and e[1] == "bool":
-                        res.add("true" if e[2] else "false")
-                    elif e[0] == "call" and e[1] == b["id"]:
-                        srcs = [x[2] for x in walk(e[2][0]) if x[0] == "field"]
-                        dcs = [x[2] for x in walk(e[2][0]) if x[0] == "downcast"]
-                        res.add("recurse:%s:%s" % (",".join(sorted(set(dcs))), ",".join(sorted(set(srcs)))))
-                    else:
-                        res.add("unknown:" + show(e))
+                    res.add(classify(ps.expr_of_local(0, len(ps.events))))
                 cache[start] = res
             table[vn] = cache[start]
+        return table
+    return None
+
+
+def _peel(e):
+    while isinstance(e, tuple) and e and e[0] in ("ref", "deref", "cast"):
+        e = e[1]
+    return e
+
+
+def predicate_table(f, b):
+    """for a body P(&PdfError) -> bool: variant -> {'true'} | {'false'} | {'recurse:<variant>:<field>'} | {'unknown:..'}.
+    Two spellings are understood: a match on self whose wrapper arms call P on the inner error, and P(e) = Q(g(e)) where the helper
+    g(&PdfError) -> &PdfError peels the wrappers (recursively) and Q is a match on its result."""
+    def cls_bool(e):
+        if e[0] == "const" and e[1] == "bool":
+            return "true" if e[2] else "false"
+        if e[0] == "call" and e[1] == b["id"]:
+            srcs = [x[2] for x in walk(e[2][0]) if x[0] == "field"]
+            dcs = [x[2] for x in walk(e[2][0]) if x[0] == "downcast"]
+            return "recurse:%s:%s" % (",".join(sorted(set(dcs))), ",".join(sorted(set(srcs))))
+        return "unknown:" + show(e)
+    direct = _switch_table(f, b, {1}, cls_bool)
+    if direct is not None:
+        return direct
+    fl = Flow(b)
+    for bi, t in F.calls(b):
+        g = f.bodies.get(t.get("resolved") or "")
+        if g is None or not t.get("resolved_local") or t["dest"] is None or len(t["args"]) != 1 or "error::PdfError" not in b["locals"][t["dest"][0]]["s"]:
+            continue
+        al = arg_local(t, 0)
+        if al is None or not fl.derives_from_arg(al, 1):
+            continue
+
+        def cls_proj(e):
+            x = _peel(e)
+            if x == ("arg", 1):
+                return "self"
+            if isinstance(x, tuple) and x[0] == "call" and last_seg(x[1]) == "deref" and x[2]:
+                x = _peel(x[2][0])              # Arc<PdfError> / Box<PdfError> deref
+                while isinstance(x, tuple) and x[0] == "call" and last_seg(x[1]) == "deref" and x[2]:
+                    x = _peel(x[2][0])
+            if isinstance(x, tuple) and x[0] == "call" and x[1] == g["id"]:
+                srcs = [y[2] for y in walk(x[2][0]) if y[0] == "field" and not y[2].isdigit() and y[2] != "pointer"]
+                dcs = [y[2] for y in walk(x[2][0]) if y[0] == "downcast"]
+                return "recurse:%s:%s" % (",".join(sorted(set(dcs))), ",".join(sorted(set(srcs))))
+            if isinstance(x, tuple) and any(y[0] == "downcast" for y in walk(x)):
+                return "unknown:one level only (%s is handed out without peeling it further)" % ",".join(sorted({y[2] for y in walk(x) if y[0] == "downcast"}))
+            return "unknown:" + show(e)
+        proj = _switch_table(f, g, {1}, cls_proj)
+        # locals holding the helper's result
+        res = {t["dest"][0]}
+        for _ in range(4):
+            for i2, j2, st in F.stmts(b):
+                if st[0] == "assign" and len(st[1]) == 1 and st[2][0] == "use" and F.op_local(st[2][1]) in res:
+                    res.add(st[1][0])
+        inner = _switch_table(f, b, res, cls_bool)
+        if proj is None or inner is None:
+            continue
+        table = {}
+        for vn in inner:
+            pr = proj.get(vn, set())
+            if pr == {"self"}:
+                table[vn] = inner[vn]
+            elif pr and all(x.startswith("recurse:%s:" % vn) for x in pr):
+                table[vn] = set(pr)
+            else:
+                table[vn] = {x if x.startswith("unknown:") else "unknown:" + x for x in pr} or {"unknown:no path"}
         return table
     return None
 
@@ -156,6 +216,8 @@ def rule_err(ctx, f):
             continue
         table = predicate_table(f, pb)
         if table is None:
+            ctx.bad("C18-ERR", "<Option<T> as Object>::from_primitive#predicate-shape", "the test %s applied to the element's error is neither a match on the "
+                    "error nor a match on the result of a wrapper-peeling helper: which errors it accepts cannot be tabulated" % t["resolved"], pb["span"])
             continue
         acc = {v for v, r in table.items() if r == {"true"}}
         look = {v for v, r in table.items() if r and all(x.startswith("recurse:%s:" % v) for x in r)}
@@ -421,6 +483,41 @@ def rule_elements(ctx, f):
                   detail="calls <T as Object>::from_primitive per element")
 
 
+GROW = ("push", "resize", "resize_with", "extend", "extend_from_slice", "insert", "reserve", "append", "extend_from_within", "set_len", "splice")
+
+
+def rule_size(ctx, f):
+    ctx.rule("C18-SIZE", "reading never makes room in the cross-reference table: it has the /Size slots it was created with, the merge of a section stores "
+             "through get_mut() only, and only create / promise append to it - so a number at or beyond /Size stays undefined and reads as absent")
+    n = 0
+    growers = {}
+    for bid, b in f.bodies.items():
+        fl = None
+        for bi, t in F.calls(b):
+            if last_seg(F.callee_name(t)) in GROW and "Vec<xref::XRef>" in (t.get("callee_full", "") + t.get("resolved_full", "") + " ".join(ty["s"] for ty in t["arg_tys"][:1])):
+                # the table's own vector: any such call inside `impl XRefTable`, elsewhere a receiver reached through an XRefTable parameter
+                mine = bid.startswith("xref::XRefTable::")
+                if not mine:
+                    fl = fl or Flow(b)
+                    l = arg_local(t, 0)
+                    mine = l is not None and any(a[0] == "arg" and "xref::XRefTable" in b["locals"][a[1]]["s"] for a in fl.origins(l, passthrough=("deref_mut", "deref", "as_mut", "borrow_mut")))
+                if mine:
+                    growers.setdefault(bid, []).append(t)
+    for bid, ts in sorted(growers.items()):
+        n += 1
+        ok = bid in ("xref::XRefTable::new", "xref::XRefTable::push")
+        ctx.check(ok, "C18-SIZE", bid + "#grows-table", "%s enlarges the cross-reference table (%s): entries of a section that lie beyond /Size become defined objects "
+                  "instead of being dropped" % (bid, ", ".join(sorted({last_seg(F.callee_name(t)) for t in ts}))), ts[0]["span"], detail="only XRefTable::new / XRefTable::push size the table")
+    for bid, b in f.bodies.items():
+        for bi, t in F.calls(b):
+            if F.callee_name(t) == "xref::XRefTable::push":
+                n += 1
+                im = b.get("impl") or {}
+                ok = im.get("trait") == "object::Updater" and im.get("self", "").startswith("file::Storage<")
+                ctx.check(ok, "C18-SIZE", bid + "#push", "%s appends to the cross-reference table outside create / promise" % bid, t["span"], detail="XRefTable::push from Updater::create / promise")
+    ctx.floor("C18-SIZE", n, 4, "sites that size the table (new: push + resize, push; create, promise)")
+
+
 def run(ctx):
     f = F.load("default")
     ctx.count("bodies", len(f.bodies))
@@ -429,6 +526,7 @@ def run(ctx):
     rule_absent(ctx, f)
     rule_required(ctx, f)
     rule_elements(ctx, f)
+    rule_size(ctx, f)
     return ctx.finish(
         "Static analysis of MIR facts: (ERR) the PdfError variants constructed where the lookup finds no object and the variants "
         "that wrap another PdfError are extracted from the program; the predicate the Option reader applies to a failed element "
